@@ -20,9 +20,13 @@ from skchange.utils.validation.data import as_2d_array
 # inequality: min over one parameter >= sum of mins over two)
 # --------------------------------------------------------------------------
 class L1Cost(BaseCost):
-    """Sum of absolute deviations from the segment median (per column)."""
+    """`weight` x sum of absolute deviations from the segment median (per column).
 
-    def __init__(self, param=None):
+    `weight` is a hyper-parameter besides `param`: adapters that copy the cost must carry it.
+    """
+
+    def __init__(self, param=None, weight=1.0):
+        self.weight = weight
         super().__init__(param)
 
     def _fit(self, X, y=None):
@@ -34,13 +38,13 @@ class L1Cost(BaseCost):
         for i, (s, e) in enumerate(zip(starts, ends)):
             seg = self.X_[s:e]
             out[i] = np.abs(seg - np.median(seg, axis=0)).sum(axis=0)
-        return out
+        return self.weight * out
 
     def _evaluate_fixed_param(self, starts, ends):
         out = np.zeros((len(starts), self.X_.shape[1]))
         for i, (s, e) in enumerate(zip(starts, ends)):
             out[i] = np.abs(self.X_[s:e] - self.param).sum(axis=0)
-        return out
+        return self.weight * out
 
 
 class ModeCost(BaseCost):
